@@ -22,7 +22,10 @@
 #ifndef C_N6
 #define C_N6 -1
 #endif
-uint32_t vp_c20_count(uint32_t which, uint32_t max) { int32_t f = which == 0 ? C_N0 : which == 1 ? C_N1 : which == 2 ? C_N2 : which == 3 ? C_N3 : which == 4 ? C_N4 : which == 5 ? C_N5 : C_N6;
+#ifndef C_N7
+#define C_N7 -1
+#endif
+uint32_t vp_c20_count(uint32_t which, uint32_t max) { int32_t f = which == 0 ? C_N0 : which == 1 ? C_N1 : which == 2 ? C_N2 : which == 3 ? C_N3 : which == 4 ? C_N4 : which == 5 ? C_N5 : which == 6 ? C_N6 : C_N7;
   if (f >= 0) { ASSERT((uint32_t)f <= max, "fixed count above the harness maximum"); return (uint32_t)f; }
   uint32_t n = vp_u32(); ASSUME(n <= max); return n; }
 void vp_c20_string(char *out, uint32_t len, uint16_t c0, uint16_t c1, uint16_t c2) { ASSERT(len <= 3, "c20 string bound"); QAD *d = qs_new(len, 3); uint16_t *p = qs_chars(d); p[0] = c0; p[1] = c1; p[2] = c2; *(QAD**)out = d; }
@@ -71,7 +74,10 @@ uint32_t _ZN9QtPrivate28QStringList_removeDuplicatesEP11QStringList(char *self) 
   l->end = l->begin + j; return n - j; }
 /* sort: ascending by code units (case sensitive); bubble network over fixed slots */
 void _ZN9QtPrivate16QStringList_sortEP11QStringListN2Qt15CaseSensitivityE(char *self, uint32_t cs) { struct ld *l = LD(self); uint32_t n = l->end - l->begin; if (n < 2) return;
-  ASSERT(cs == 1, "case-insensitive sort not modelled"); ASSERT(l->ref == 1 && l->begin == LD_B, "QStringList::sort: list must be detached (model)"); ASSERT(n <= LIST_CAP, "QList capacity of the model exceeded");
+  ASSERT(cs == 1, "case-insensitive sort not modelled"); ASSERT(l->begin == LD_B, "QStringList::sort: begin"); ASSERT(n <= LIST_CAP, "QList capacity of the model exceeded");
+  if (l->ref != 1) { /* detach (Qt: that->begin()): private copy of the slots, every string gains a reference */
+    struct ld *t = ld_new(n); for (uint32_t k = 0; k < LIST_CAP; k++) { if (k >= n) break; SL(t, k) = (char*)qad_ref((QAD*)SL(l, k)); }
+    if (l->ref != (uint32_t)-1 && l->ref != 0) l->ref--; LD(self) = t; l = t; }
   for (uint32_t pass = 0; pass + 1 < LIST_CAP; pass++) { if (pass + 1 >= n) break;
     for (uint32_t k = 0; k + 1 < LIST_CAP; k++) { if (k + 1 >= n) break; if (sl_cmp((QAD*)SL(l, k + 1), (QAD*)SL(l, k)) < 0) { char *t = SL(l, k); SL(l, k) = SL(l, k + 1); SL(l, k + 1) = t; } } } }
 #ifndef C20_ELCAP
@@ -182,7 +188,7 @@ static uint8_t c20_less(int kind, char *a, char *b) { if (kind == 0) return vpl_
 static void c20_insertion_sort(char *firstp, char *lastp, int kind) { char **slots = *(char***)firstp; char **end = *(char***)lastp;
   ASSERT(VP_SAME_OBJ((char*)slots, (char*)end), "std::sort range across blocks"); uint32_t n = (uint32_t)(VP_PDIFF((char*)end, (char*)slots) / 8);
   ASSERT(n <= LIST_CAP, "std::sort model: more than LIST_CAP elements"); if (n < 2) return;
-  char *e[LIST_CAP]; for (uint32_t k = 0; k < LIST_CAP; k++) e[k] = k < n ? slots[k] : (char*)0;
+  char *e[LIST_CAP]; for (uint32_t k = 0; k < LIST_CAP; k++) e[k] = k < n ? slots[k] : (char*)vp_ld_zero;   /* never a null / indeterminate pointer */
   for (uint32_t i = 1; i < LIST_CAP; i++) { if (i >= n) break; char *val = e[i];
     if (c20_less(kind, val, e[0])) { /* __comp(__i, __first): move_backward(first, i, i + 1); *first = val */
       for (uint32_t k = LIST_CAP - 1; k > 0; k--) { if (k <= i) e[k] = e[k - 1]; } e[0] = val; }
@@ -224,11 +230,13 @@ char* _ZN4QMapI7QStringN13QXmppDataForm5FieldEE6insertERKS0_RKS2_(char *self, ch
   uint32_t s = m->cnt; m->key[s] = qad_ref(k); m->val[s] = qm_field_ref(*(char**)value); m->present[s] = 1; m->cnt = s + 1; return (char*)0; }
 uint8_t _ZNK4QMapI7QStringN13QXmppDataForm5FieldEE8containsERKS0_(char *self, char *key) { struct qm *m = QM(self); QAD *k = *(QAD**)key; uint8_t r = 0;
   for (uint32_t i = 0; i < QM_CAP; i++) { if (i >= m->cnt) break; if (m->present[i] && d_eq(m->key[i], k)) r = 1; } return r; }
-void _ZN4QMapI7QStringN13QXmppDataForm5FieldEE4takeERKS0_(char *ret, char *self, char *key) { struct qm *m = QM(self); QAD *k = *(QAD**)key; uint8_t found = 0; *(char**)ret = 0;
+void _ZN4QMapI7QStringN13QXmppDataForm5FieldEE4takeERKS0_(char *ret, char *self, char *key) { struct qm *m = QM(self); QAD *k = *(QAD**)key; uint8_t found = 0; *(char**)ret = m->val[0];   /* placeholder, overwritten when found (asserted) */
   for (uint32_t i = 0; i < QM_CAP; i++) { if (i >= m->cnt) break; if (m->present[i] && d_eq(m->key[i], k)) { *(char**)ret = m->val[i]; m->present[i] = 0; found = 1; } }
   ASSERT(found, "QMap model: take() of a missing key (would return a default-constructed value)"); ASSUME(found); }
-void _ZNK4QMapI7QStringN13QXmppDataForm5FieldEE5valueERKS0_RKS2_(char *ret, char *self, char *key, char *def) { struct qm *m = QM(self); QAD *k = *(QAD**)key; char *v = *(char**)def;
-  for (uint32_t i = 0; i < QM_CAP; i++) { if (i >= m->cnt) break; if (m->present[i] && d_eq(m->key[i], k)) v = m->val[i]; } *(char**)ret = qm_field_ref(v); }
+void _ZNK4QMapI7QStringN13QXmppDataForm5FieldEE5valueERKS0_RKS2_(char *ret, char *self, char *key, char *def) { struct qm *m = QM(self); QAD *k = *(QAD**)key; char *v = m->val[0]; uint8_t found = 0;
+  for (uint32_t i = 0; i < QM_CAP; i++) { if (i >= m->cnt) break; if (m->present[i] && d_eq(m->key[i], k)) { v = m->val[i]; found = 1; } }
+  /* verificationString only looks up keys it got from keys(); a miss (result = the default value) is a model limit, not silently merged in */
+  ASSERT(found, "QMap model: value() of a missing key"); ASSUME(found); *(char**)ret = qm_field_ref(v); }
 void _ZNK4QMapI7QStringN13QXmppDataForm5FieldEE4keysEv(char *ret, char *self) { struct qm *m = QM(self); uint32_t n = 0, rank[QM_CAP];
   for (uint32_t i = 0; i < QM_CAP; i++) { rank[i] = 0; if (i < m->cnt && m->present[i]) { n++;
     for (uint32_t j = 0; j < QM_CAP; j++) { if (j < m->cnt && j != i && m->present[j] && vpl_qcmp16(m->key[j], m->key[i]) < 0) rank[i]++; } } }
